@@ -66,7 +66,7 @@ sys.path.insert(0, %(harness)r)
 import apel
 env = apel.PluginEnv(allow=True, ud=%(ud)r, src=%(src)r, callout=%(co)r, registry=%(reg)r, comp_ids=%(cids)r).install()
 try:
-    r = apel.real_decode(bytes.fromhex(sys.argv[1]), allow_plugins=bool(int(sys.argv[2])))
+    r = apel.real_decode(bytes.fromhex(sys.stdin.read().strip()), allow_plugins=bool(int(sys.argv[1])))
     print(json.dumps(r[:3]))
 finally:
     env.uninstall()
@@ -498,7 +498,7 @@ def run(tier, seed):
 
 
 def fresh(fresh_py, data, allow):
-    p = subprocess.run([common.PY, '-W', 'ignore', '-B', fresh_py, data.hex(), str(int(allow))], stdout=subprocess.PIPE, stderr=subprocess.PIPE,
+    p = subprocess.run([common.PY, '-W', 'ignore', '-B', fresh_py, str(int(allow))], input=data.hex().encode(), stdout=subprocess.PIPE, stderr=subprocess.PIPE,
                        env=common.child_env(), timeout=60)
     try:
         return json.loads(p.stdout.decode().strip().split('\n')[-1])
